@@ -54,6 +54,17 @@ func (t *table) add(d []byte) {
 		t.keys = append(t.keys, append([]byte{}, d...))
 	}
 }
+
+// index returns the position of d in the table (adding it if new).
+func (t *table) index(d []byte) int {
+	t.add(d)
+	for i, k := range t.keys {
+		if string(k) == string(d) {
+			return i
+		}
+	}
+	panic("unreachable")
+}
 func (t *table) addLog(l Log) {
 	t.add(l.Addr)
 	for _, x := range l.Topics {
